@@ -144,3 +144,15 @@ contract(
     params={"values": P.dict(ctr=P.int(-32768, 32767), acc=P.int(-2**31, 2**31 - 1), en=P.bool(), dn=P.bool())},
     setup=[f"T = {UDT_V}"], ensures=["result['en'] == values['en']", "result['dn'] == values['dn']", "result['acc'] == values['acc']"],
     props=["C06", "C02"], max_paths=20000)
+# a structure whose size exceeds the end of its last member (trailing padding): decoding consumes the whole structure
+UDT_P = f"{CT}StructTag(({DTP}DINT('a'), 0), ({DTP}SINT('b'), 4), bit_members={{}}, private_members=set(), struct_size=8)"
+contract(
+    id="structtag.decode.padded", func=CT + "StructTag.<locals>.StructTag._decode", call="T.decode(buffer)",
+    params={"data": P.bytes(len=8), "rest": P.bytes()}, setup=[f"T = {UDT_P}", "buffer = io.BytesIO(data + rest)"],
+    ensures=["result == {'a': spec.cip_codec.decode_int('DINT', data[:4]), 'b': spec.cip_codec.decode_int('SINT', data[4:5])}",
+             "buffer.read() == rest"], props=["C01", "C07", "C06"])
+contract(
+    id="structtag.decode.padded.array", func="pycomm3.cip.data_types.Array.<locals>.Array.decode", call=f"pycomm3.cip.data_types.Array(2, T).decode(buffer)",
+    params={"data": P.bytes(len=16), "rest": P.bytes()}, setup=[f"T = {UDT_P}", "buffer = io.BytesIO(data + rest)"],
+    ensures=["result == [{'a': spec.cip_codec.decode_int('DINT', data[8 * i:8 * i + 4]), 'b': spec.cip_codec.decode_int('SINT', data[8 * i + 4:8 * i + 5])} for i in range(2)]",
+             "buffer.read() == rest"], props=["C01", "C07", "C06"])
